@@ -40,6 +40,19 @@ fn jobs_of(args: &[String]) -> u64 {
     arg(args, "--jobs").and_then(|s| s.parse().ok()).or_else(|| std::env::var("VERIF_JOBS").ok().and_then(|s| s.parse().ok())).unwrap_or_else(|| std::thread::available_parallelism().map(|n| n.get() as u64).unwrap_or(4).min(16))
 }
 
+/// Failing allocations as a fault kind: the reader checks (C10, C11) run their workers under an 8 GiB address-space
+/// limit. The largest inputs are 9 MB (C10) and 1 MiB (C11), so memory proportional to the input stays far below it;
+/// a reservation computed from a damaged length or count field does not, `alloc` fails, the process aborts and the
+/// supervisor reports the dead worker as a crash with the offending sub-case.
+fn limit_address_space(id: &str) {
+    if id == "C10" || id == "C11" {
+        let lim = libc::rlimit { rlim_cur: 8 << 30, rlim_max: 8 << 30 };
+        unsafe {
+            libc::setrlimit(libc::RLIMIT_AS, &lim);
+        }
+    }
+}
+
 fn main() {
     let args: Vec<String> = std::env::args().collect();
     if args.len() < 2 {
@@ -66,6 +79,7 @@ fn main() {
         "worker" => {
             let id = args.get(2).cloned().unwrap_or_default();
             let c = checks::by_id(&id).expect("check id");
+            limit_address_space(&id);
             let g = |n: &str| arg(&args, n).and_then(|s| s.parse::<u64>().ok()).unwrap_or(0);
             let skip: Vec<u64> = arg(&args, "--skip").map(|s| s.split(',').filter_map(|x| x.parse().ok()).collect()).unwrap_or_default();
             worker(
@@ -89,6 +103,7 @@ fn main() {
                         }
                         Some(c) => {
                             if args.iter().any(|a| a == "--inner") {
+                                limit_address_space(&id);
                                 replay(c.as_ref(), &v)
                             } else {
                                 replay_contained(c.as_ref(), &v, &path)
